@@ -16,6 +16,12 @@
 //   ptr  <MACRO> <e> <a>                        POINTERS_EQUAL FUNCTIONPOINTERS_EQUAL C_POINTER CHECK_EQUAL
 //   cmp  <relop> <te> <ve> <ta> <va>            CHECK_COMPARE on integers
 //   fail <MACRO>                                FAIL FAIL_TEST C_FAIL C_FAIL_TEXT
+//   zero <MACRO> <t> <v>                        CHECK_EQUAL_ZERO(_TEXT)
+//   throws <nothing|expected|other>             CHECK_THROWS(int, expr)
+//   enumt <tu> <te> <ve> <ta> <va>              ENUMS_EQUAL_INT_TEXT (tu=i32) / ENUMS_EQUAL_TYPE_TEXT (tu=u16); echoed as `enum`
+//   seq <step>...                               several check statements in one test body (stop at the first failure)
+//   evals <MACRO> <e0> <estep> <a0> <astep>     operands that change with every evaluation: evaluation counts, warnings
+// every macro also in its _TEXT form (name + _TEXT)
 #include "fixture.h"
 #include "CppUTest/TestHarness_c.h"
 #include <type_traits>
@@ -151,6 +157,29 @@ BODY2(B_C_ULONGLONG, CHECK_EQUAL_C_ULONGLONG(e, a))
 BODY2(B_C_CHAR, CHECK_EQUAL_C_CHAR(e, a))
 BODY2(B_C_UBYTE, CHECK_EQUAL_C_UBYTE(e, a))
 BODY2(B_C_SBYTE, CHECK_EQUAL_C_SBYTE(e, a))
+BODY2(B_UNSIGNED_LONGS_EQUAL_TEXT, UNSIGNED_LONGS_EQUAL_TEXT(e, a, "text"))
+BODY2(B_LONGLONGS_EQUAL_TEXT, LONGLONGS_EQUAL_TEXT(e, a, "text"))
+BODY2(B_UNSIGNED_LONGLONGS_EQUAL_TEXT, UNSIGNED_LONGLONGS_EQUAL_TEXT(e, a, "text"))
+BODY2(B_BYTES_EQUAL_TEXT, BYTES_EQUAL_TEXT(e, a, "text"))
+BODY2(B_SIGNED_BYTES_EQUAL_TEXT, SIGNED_BYTES_EQUAL_TEXT(e, a, "text"))
+BODY2(B_CHECK_EQUAL_TEXT, CHECK_EQUAL_TEXT(e, a, "text"))
+BODY2(B_C_BOOL_TEXT, CHECK_EQUAL_C_BOOL_TEXT(e, a, "text"))
+BODY2(B_C_INT_TEXT, CHECK_EQUAL_C_INT_TEXT(e, a, "text"))
+BODY2(B_C_UINT_TEXT, CHECK_EQUAL_C_UINT_TEXT(e, a, "text"))
+BODY2(B_C_LONG_TEXT, CHECK_EQUAL_C_LONG_TEXT(e, a, "text"))
+BODY2(B_C_ULONG_TEXT, CHECK_EQUAL_C_ULONG_TEXT(e, a, "text"))
+BODY2(B_C_LONGLONG_TEXT, CHECK_EQUAL_C_LONGLONG_TEXT(e, a, "text"))
+BODY2(B_C_ULONGLONG_TEXT, CHECK_EQUAL_C_ULONGLONG_TEXT(e, a, "text"))
+BODY2(B_C_CHAR_TEXT, CHECK_EQUAL_C_CHAR_TEXT(e, a, "text"))
+BODY2(B_C_UBYTE_TEXT, CHECK_EQUAL_C_UBYTE_TEXT(e, a, "text"))
+BODY2(B_C_SBYTE_TEXT, CHECK_EQUAL_C_SBYTE_TEXT(e, a, "text"))
+BODY2(B_CMP_LT_TEXT, CHECK_COMPARE_TEXT(e, <, a, "text"))
+BODY2(B_CHECK_TEXT, (void) a; CHECK_TEXT(e, "text"))
+BODY2(B_CHECK_TRUE_TEXT, (void) a; CHECK_TRUE_TEXT(e, "text"))
+BODY2(B_CHECK_FALSE_TEXT, (void) a; CHECK_FALSE_TEXT(e, "text"))
+BODY2(B_CHECK_C_TEXT, (void) a; CHECK_C_TEXT(e, "text"))
+BODY2(B_CHECK_EQUAL_ZERO, (void) e; CHECK_EQUAL_ZERO(a))
+BODY2(B_CHECK_EQUAL_ZERO_TEXT, (void) e; CHECK_EQUAL_ZERO_TEXT(a, "text"))
 BODY2(B_CMP_LT, CHECK_COMPARE(e, <, a))
 BODY2(B_CMP_LE, CHECK_COMPARE(e, <=, a))
 BODY2(B_CMP_GT, CHECK_COMPARE(e, >, a))
@@ -176,12 +205,20 @@ ENUMBODY(B_ENUM_U64, unsigned long)
 template <class E, class A> struct B_ENUM_I32 { static void call() {
     typename En<E>::type e = (typename En<E>::type) slot<E>(0); typename En<A>::type a = (typename En<A>::type) slot<A>(1);
     ENUMS_EQUAL_INT(e, a); } };
+template <class E, class A> struct B_ENUM_I32_TEXT { static void call() {
+    typename En<E>::type e = (typename En<E>::type) slot<E>(0); typename En<A>::type a = (typename En<A>::type) slot<A>(1);
+    ENUMS_EQUAL_INT_TEXT(e, a, "text"); } };
+template <class E, class A> struct B_ENUM_U16_TEXT { static void call() {
+    typename En<E>::type e = (typename En<E>::type) slot<E>(0); typename En<A>::type a = (typename En<A>::type) slot<A>(1);
+    ENUMS_EQUAL_TYPE_TEXT(unsigned short, e, a, "text"); } };
 // masked bits: operands (T, T), the mask in slot 2 at type M
 #define BITSBODY(NAME, M, STMT) \
     template <class E, class A> struct NAME { static void call() { E e = slot<E>(0); A a = slot<A>(1); M m = slot<M>(2); STMT; } };
 BITSBODY(B_BITS_I32, int, BITS_EQUAL(e, a, m))
 BITSBODY(B_BITS_U8, unsigned char, BITS_EQUAL(e, a, m))
 BITSBODY(B_BITS_U64, unsigned long, BITS_EQUAL(e, a, m))
+BITSBODY(B_BITS_TEXT_I32, int, BITS_EQUAL_TEXT(e, a, m, "text"))
+BITSBODY(B_CBITS_TEXT_I32, int, CHECK_EQUAL_C_BITS_TEXT(e, a, m, "text"))
 BITSBODY(B_CBITS_I32, int, CHECK_EQUAL_C_BITS(e, a, m))
 BITSBODY(B_CBITS_U8, unsigned char, CHECK_EQUAL_C_BITS(e, a, m))
 BITSBODY(B_CBITS_U64, unsigned long, CHECK_EQUAL_C_BITS(e, a, m))
@@ -212,6 +249,22 @@ bool op_int(const vh::Words& w) {
     else if (m == "C_CHAR") fn = pick_same<B_C_CHAR>(te);
     else if (m == "C_UBYTE") fn = pick_same<B_C_UBYTE>(te);
     else if (m == "C_SBYTE") fn = pick_same<B_C_SBYTE>(te);
+    else if (m == "UNSIGNED_LONGS_EQUAL_TEXT") fn = pick_same<B_UNSIGNED_LONGS_EQUAL_TEXT>(te);
+    else if (m == "LONGLONGS_EQUAL_TEXT") fn = pick_same<B_LONGLONGS_EQUAL_TEXT>(te);
+    else if (m == "UNSIGNED_LONGLONGS_EQUAL_TEXT") fn = pick_same<B_UNSIGNED_LONGLONGS_EQUAL_TEXT>(te);
+    else if (m == "BYTES_EQUAL_TEXT") fn = pick_same<B_BYTES_EQUAL_TEXT>(te);
+    else if (m == "SIGNED_BYTES_EQUAL_TEXT") fn = pick_same<B_SIGNED_BYTES_EQUAL_TEXT>(te);
+    else if (m == "CHECK_EQUAL_TEXT") fn = pick_same<B_CHECK_EQUAL_TEXT>(te);
+    else if (m == "C_BOOL_TEXT") fn = pick_same<B_C_BOOL_TEXT>(te);
+    else if (m == "C_INT_TEXT") fn = pick_same<B_C_INT_TEXT>(te);
+    else if (m == "C_UINT_TEXT") fn = pick_same<B_C_UINT_TEXT>(te);
+    else if (m == "C_LONG_TEXT") fn = pick_same<B_C_LONG_TEXT>(te);
+    else if (m == "C_ULONG_TEXT") fn = pick_same<B_C_ULONG_TEXT>(te);
+    else if (m == "C_LONGLONG_TEXT") fn = pick_same<B_C_LONGLONG_TEXT>(te);
+    else if (m == "C_ULONGLONG_TEXT") fn = pick_same<B_C_ULONGLONG_TEXT>(te);
+    else if (m == "C_CHAR_TEXT") fn = pick_same<B_C_CHAR_TEXT>(te);
+    else if (m == "C_UBYTE_TEXT") fn = pick_same<B_C_UBYTE_TEXT>(te);
+    else if (m == "C_SBYTE_TEXT") fn = pick_same<B_C_SBYTE_TEXT>(te);
     if (!fn) return false;
     std::string se = store(0, te, w[3]), sa = store(1, ta, w[5]);
     vh::emit("> int %s %s %s %s %s", m.c_str(), w[2].c_str(), se.c_str(), w[4].c_str(), sa.c_str());
@@ -234,6 +287,11 @@ bool op_enum(const vh::Words& w) {
     case 6: fn = pick_same<B_ENUM_I64>(te); break;
     default: fn = pick_same<B_ENUM_U64>(te); break;
     }
+    if (w[0] == "enumt") {          // the _TEXT forms
+        if (tu == 4) fn = pick_same<B_ENUM_I32_TEXT>(te);
+        else if (tu == 3) fn = pick_same<B_ENUM_U16_TEXT>(te);
+        else return false;
+    }
     std::string se = store(0, te, w[3]), sa = store(1, ta, w[5]);
     vh::emit("> enum %s %s %s %s %s", w[1].c_str(), w[2].c_str(), se.c_str(), w[4].c_str(), sa.c_str());
     report(run_fn(fn));
@@ -250,6 +308,10 @@ bool op_bool(const vh::Words& w) {
     else if (m == "CHECK_TRUE") fn = pick_same<B_CHECK_TRUE>(t);
     else if (m == "CHECK_FALSE") fn = pick_same<B_CHECK_FALSE>(t);
     else if (m == "CHECK_C") fn = pick_same<B_CHECK_C>(t);
+    else if (m == "CHECK_TEXT") fn = pick_same<B_CHECK_TEXT>(t);
+    else if (m == "CHECK_TRUE_TEXT") fn = pick_same<B_CHECK_TRUE_TEXT>(t);
+    else if (m == "CHECK_FALSE_TEXT") fn = pick_same<B_CHECK_FALSE_TEXT>(t);
+    else if (m == "CHECK_C_TEXT") fn = pick_same<B_CHECK_C_TEXT>(t);
     if (!fn) return false;
     std::string sv = store(0, t, w[3]);
     store(1, t, "0");
@@ -267,6 +329,7 @@ bool op_cmp(const vh::Words& w) {
     if (o == "lt") fn = pick_pair<B_CMP_LT>(te, ta);
     else if (o == "ge") fn = pick_pair<B_CMP_GE>(te, ta);
     else if (te != ta) fn = 0;                       // the other operators: same-type operands
+    else if (o == "lt_text") fn = pick_same<B_CMP_LT_TEXT>(te);
     else if (o == "le") fn = pick_same<B_CMP_LE>(te);
     else if (o == "gt") fn = pick_same<B_CMP_GT>(te);
     else if (o == "eq") fn = pick_same<B_CMP_EQ>(te);
@@ -285,6 +348,8 @@ bool op_bits(const vh::Words& w) {
     const std::string& m = w[1];
     Fn0 fn = 0;
     if (m == "BITS_EQUAL") fn = tm == 4 ? pick_same<B_BITS_I32>(te) : tm == 1 ? pick_same<B_BITS_U8>(te) : pick_same<B_BITS_U64>(te);
+    else if (m == "BITS_EQUAL_TEXT" && tm == 4) fn = pick_same<B_BITS_TEXT_I32>(te);
+    else if (m == "C_BITS_TEXT" && tm == 4) fn = pick_same<B_CBITS_TEXT_I32>(te);
     else if (m == "C_BITS") fn = tm == 4 ? pick_same<B_CBITS_I32>(te) : tm == 1 ? pick_same<B_CBITS_U8>(te) : pick_same<B_CBITS_U64>(te);
     if (!fn) return false;
     std::string se = store(0, te, w[3]), sa = store(1, ta, w[5]), sm = store(2, tm, w[7]);
@@ -310,13 +375,15 @@ bool op_dbl(const vh::Words& w) {
     double e, a, t;
     if (w.size() != 5 || !parse_double(w[2], e) || !parse_double(w[3], a) || !parse_double(w[4], t)) return false;
     const std::string& m = w[1];
-    if (m != "DOUBLES_EQUAL" && m != "C_REAL" && m != "CHECK_EQUAL" && m != "DOUBLES_EQUAL_TEXT") return false;
+    if (m != "DOUBLES_EQUAL" && m != "C_REAL" && m != "CHECK_EQUAL" && m != "DOUBLES_EQUAL_TEXT" && m != "C_REAL_TEXT" && m != "CHECK_EQUAL_TEXT") return false;
     vh::emit("> dbl %s %s %s %s", m.c_str(), show_double(e).c_str(), show_double(a).c_str(), show_double(t).c_str());
     Result r = { 0, 0 };
     if (m == "DOUBLES_EQUAL") r = run([=] { DOUBLES_EQUAL(e, a, t); });
     else if (m == "DOUBLES_EQUAL_TEXT") r = run([=] { DOUBLES_EQUAL_TEXT(e, a, t, "text"); });
     else if (m == "C_REAL") r = run([=] { CHECK_EQUAL_C_REAL(e, a, t); });
     else if (m == "CHECK_EQUAL") r = run([=] { CHECK_EQUAL(e, a); });
+    else if (m == "C_REAL_TEXT") r = run([=] { CHECK_EQUAL_C_REAL_TEXT(e, a, t, "text"); });
+    else if (m == "CHECK_EQUAL_TEXT") r = run([=] { CHECK_EQUAL_TEXT(e, a, "text"); });
     report(r);
     return true;
 }
@@ -363,7 +430,8 @@ bool op_str(const vh::Words& w) {
     const std::string& m = w[1];
     size_t n = (size_t) vh::to_u64(w[4]);
     static const char* names[] = { "STRCMP_EQUAL", "STRNCMP_EQUAL", "STRCMP_NOCASE_EQUAL", "STRCMP_CONTAINS",
-        "STRCMP_NOCASE_CONTAINS", "C_STRING", "STRCMP_EQUAL_TEXT", "STRNCMP_EQUAL_TEXT", 0 };
+        "STRCMP_NOCASE_CONTAINS", "C_STRING", "STRCMP_EQUAL_TEXT", "STRNCMP_EQUAL_TEXT", "STRCMP_NOCASE_EQUAL_TEXT",
+        "STRCMP_CONTAINS_TEXT", "STRCMP_NOCASE_CONTAINS_TEXT", "C_STRING_TEXT", 0 };
     bool ok = false;
     for (int i = 0; names[i]; i++) if (m == names[i]) ok = true;
     if (!ok) return false;
@@ -378,6 +446,10 @@ bool op_str(const vh::Words& w) {
     else if (m == "STRCMP_CONTAINS") r = run([=] { STRCMP_CONTAINS(pe, pa); });
     else if (m == "STRCMP_NOCASE_CONTAINS") r = run([=] { STRCMP_NOCASE_CONTAINS(pe, pa); });
     else if (m == "C_STRING") r = run([=] { CHECK_EQUAL_C_STRING(pe, pa); });
+    else if (m == "STRCMP_NOCASE_EQUAL_TEXT") r = run([=] { STRCMP_NOCASE_EQUAL_TEXT(pe, pa, "text"); });
+    else if (m == "STRCMP_CONTAINS_TEXT") r = run([=] { STRCMP_CONTAINS_TEXT(pe, pa, "text"); });
+    else if (m == "STRCMP_NOCASE_CONTAINS_TEXT") r = run([=] { STRCMP_NOCASE_CONTAINS_TEXT(pe, pa, "text"); });
+    else if (m == "C_STRING_TEXT") r = run([=] { CHECK_EQUAL_C_STRING_TEXT(pe, pa, "text"); });
     report(r);
     return true;
 }
@@ -403,7 +475,7 @@ bool op_mem(const vh::Words& w) {
     Block e, a;
     if (w.size() != 5 || !e.parse(w[2]) || !a.parse(w[3])) return false;
     const std::string& m = w[1];
-    if (m != "MEMCMP_EQUAL" && m != "C_MEMCMP" && m != "MEMCMP_EQUAL_TEXT") return false;
+    if (m != "MEMCMP_EQUAL" && m != "C_MEMCMP" && m != "MEMCMP_EQUAL_TEXT" && m != "C_MEMCMP_TEXT") return false;
     size_t n = (size_t) vh::to_u64(w[4]);
     // the caller promises `n` readable bytes behind every non-NULL pointer (n = 0 promises nothing)
     if ((!e.null && e.s.size() < n) || (!a.null && a.s.size() < n)) return false;
@@ -413,6 +485,7 @@ bool op_mem(const vh::Words& w) {
     if (m == "MEMCMP_EQUAL") r = run([=] { MEMCMP_EQUAL(pe, pa, n); });
     else if (m == "MEMCMP_EQUAL_TEXT") r = run([=] { MEMCMP_EQUAL_TEXT(pe, pa, n, "text"); });
     else if (m == "C_MEMCMP") r = run([=] { CHECK_EQUAL_C_MEMCMP(pe, pa, n); });
+    else if (m == "C_MEMCMP_TEXT") r = run([=] { CHECK_EQUAL_C_MEMCMP_TEXT(pe, pa, n, "text"); });
     report(r);
     return true;
 }
@@ -420,7 +493,7 @@ bool op_mem(const vh::Words& w) {
 bool op_ptr(const vh::Words& w) {
     if (w.size() != 4) return false;
     const std::string& m = w[1];
-    if (m != "POINTERS_EQUAL" && m != "FUNCTIONPOINTERS_EQUAL" && m != "C_POINTER" && m != "CHECK_EQUAL" && m != "POINTERS_EQUAL_TEXT") return false;
+    if (m != "POINTERS_EQUAL" && m != "FUNCTIONPOINTERS_EQUAL" && m != "C_POINTER" && m != "CHECK_EQUAL" && m != "POINTERS_EQUAL_TEXT" && m != "FUNCTIONPOINTERS_EQUAL_TEXT" && m != "C_POINTER_TEXT") return false;
     unsigned long ue = vh::to_u64(w[2]), ua = vh::to_u64(w[3]);
     vh::emit("> ptr %s %lu %lu", m.c_str(), ue, ua);
     const void* pe = (const void*) ue; const void* pa = (const void*) ua;
@@ -431,6 +504,8 @@ bool op_ptr(const vh::Words& w) {
     else if (m == "POINTERS_EQUAL_TEXT") r = run([=] { POINTERS_EQUAL_TEXT(pe, pa, "text"); });
     else if (m == "FUNCTIONPOINTERS_EQUAL") r = run([=] { FUNCTIONPOINTERS_EQUAL(fe, fa); });
     else if (m == "C_POINTER") r = run([=] { CHECK_EQUAL_C_POINTER(pe, pa); });
+    else if (m == "FUNCTIONPOINTERS_EQUAL_TEXT") r = run([=] { FUNCTIONPOINTERS_EQUAL_TEXT(fe, fa, "text"); });
+    else if (m == "C_POINTER_TEXT") r = run([=] { CHECK_EQUAL_C_POINTER_TEXT(pe, pa, "text"); });
     else if (m == "CHECK_EQUAL") r = run([=] { CHECK_EQUAL(pe, pa); });
     report(r);
     return true;
@@ -450,6 +525,119 @@ bool op_fail(const vh::Words& w) {
     return true;
 }
 
+// zero <MACRO> <t> <v>: CHECK_EQUAL_ZERO(v) / CHECK_EQUAL_ZERO_TEXT(v, text)
+bool op_zero(const vh::Words& w) {
+    if (w.size() != 4) return false;
+    int t = type_index(w[2]);
+    if (t < 0) return false;
+    Fn0 fn = 0;
+    if (w[1] == "CHECK_EQUAL_ZERO") fn = pick_same<B_CHECK_EQUAL_ZERO>(t);
+    else if (w[1] == "CHECK_EQUAL_ZERO_TEXT") fn = pick_same<B_CHECK_EQUAL_ZERO_TEXT>(t);
+    if (!fn) return false;
+    store(0, t, "0");
+    std::string sv = store(1, t, w[3]);
+    vh::emit("> zero %s %s %s", w[1].c_str(), w[2].c_str(), sv.c_str());
+    report(run_fn(fn));
+    return true;
+}
+
+// throws <nothing|expected|other>: CHECK_THROWS(int, expression) where the expression throws nothing / an int / a double
+struct Quiet {};
+int g_throw_kind = 0;
+int thrower() { if (g_throw_kind == 1) throw (int) 7; if (g_throw_kind == 2) throw (double) 1.5; if (g_throw_kind == 3) throw Quiet(); return 0; }
+bool op_throws(const vh::Words& w) {
+    if (w.size() != 2) return false;
+    int k = w[1] == "nothing" ? 0 : w[1] == "expected" ? 1 : w[1] == "other" ? 2 : w[1] == "other_class" ? 3 : -1;
+    if (k < 0) return false;
+    g_throw_kind = k;
+    vh::emit("> throws %s", k == 0 ? "nothing" : k == 1 ? "expected" : "other");
+    report(run([] { CHECK_THROWS(int, thrower()); }));
+    return true;
+}
+
+// seq <step>...: one test body made of several check statements; a failing check must end the body at once.
+// Observations: r <failures> <checks>, ran <number of statements that were started>
+int g_ran = 0;
+const char* g_null_string = 0;
+const char* step_names[] = { "cpp_pass", "cpp_fail", "c_pass", "c_fail", "cmp_pass", "cmp_fail", "str_null_fail", "cstr_null_fail",
+    "fail", "c_fail_text", "mem_null_fail", "throws_pass", "throws_fail", "dbl_fail", "check_fail", "c_check_fail", "equal_fail",
+    "equal_pass", "bits_fail", "exit", 0 };
+void do_step(int k) {
+    g_ran++;
+    switch (k) {
+    case 0: LONGS_EQUAL(1, 1); break;
+    case 1: LONGS_EQUAL(1, 2); break;
+    case 2: CHECK_EQUAL_C_INT(1, 1); break;
+    case 3: CHECK_EQUAL_C_INT(1, 2); break;
+    case 4: CHECK_COMPARE(1, <, 2); break;
+    case 5: CHECK_COMPARE(2, <, 1); break;
+    case 6: STRCMP_EQUAL("a", g_null_string); break;          // would dereference NULL if the body went on inside the check
+    case 7: CHECK_EQUAL_C_STRING(g_null_string, "a"); break;
+    case 8: FAIL("text"); break;
+    case 9: FAIL_TEXT_C("text"); break;
+    case 10: MEMCMP_EQUAL(g_null_string, "ab", 2); break;
+    case 11: g_throw_kind = 1; CHECK_THROWS(int, thrower()); break;
+    case 12: g_throw_kind = 0; CHECK_THROWS(int, thrower()); break;
+    case 13: DOUBLES_EQUAL(1.0, 2.0, 0.5); break;
+    case 14: CHECK(false); break;
+    case 15: CHECK_C(0); break;
+    case 16: CHECK_EQUAL(1, 2); break;
+    case 17: CHECK_EQUAL(3, 3); break;
+    case 18: BITS_EQUAL(1, 2, 3); break;
+    case 19: TEST_EXIT; break;
+    }
+}
+std::vector<int> g_steps;
+void seq_body() { for (size_t i = 0; i < g_steps.size(); i++) do_step(g_steps[i]); }
+bool op_seq(const vh::Words& w) {
+    if (w.size() < 2) return false;
+    g_steps.clear();
+    std::string echo = "> seq";
+    for (size_t i = 1; i < w.size(); i++) {
+        int k = -1;
+        for (int j = 0; step_names[j]; j++) if (w[i] == step_names[j]) k = j;
+        if (k < 0) return false;
+        g_steps.push_back(k);
+        echo += " " + w[i];
+    }
+    vh::emit("%s", echo.c_str());
+    g_ran = 0;
+    Result r = run_fn(seq_body);
+    report(r);
+    vh::emit("ran %d", g_ran);
+    return true;
+}
+
+// evals <CHECK_EQUAL|CHECK_COMPARE_lt> <e0> <estep> <a0> <astep>: int operands whose value changes with every evaluation
+// (k-th evaluation yields start + k * step).  Observations: r, evals <expected evaluations> <actual evaluations>,
+// warn <number of "evaluated multiple times" warnings printed>
+long g_ev[2][3];     // start, step, count
+int next_value(int i) { long k = g_ev[i][2]++; return (int) (g_ev[i][0] + k * g_ev[i][1]); }
+void evals_equal_body() { CHECK_EQUAL(next_value(0), next_value(1)); }
+void evals_compare_body() { CHECK_COMPARE(next_value(0), <, next_value(1)); }
+void evals_longs_body() { LONGS_EQUAL(next_value(0), next_value(1)); }
+bool op_evals(const vh::Words& w) {
+    if (w.size() != 6) return false;
+    void (*fn)() = w[1] == "CHECK_EQUAL" ? evals_equal_body : w[1] == "CHECK_COMPARE_lt" ? evals_compare_body :
+                   w[1] == "LONGS_EQUAL" ? evals_longs_body : 0;
+    if (!fn) return false;
+    for (int i = 0; i < 2; i++) {
+        g_ev[i][0] = (int) vh::to_i64(w[2 + 2 * i]); g_ev[i][1] = (int) vh::to_i64(w[3 + 2 * i]); g_ev[i][2] = 0;
+        if (g_ev[i][0] > 1000000 || g_ev[i][0] < -1000000 || g_ev[i][1] > 1000 || g_ev[i][1] < -1000) return false;   // no int overflow
+    }
+    vh::emit("> evals %s %ld %ld %ld %ld", w[1].c_str(), g_ev[0][0], g_ev[0][1], g_ev[1][0], g_ev[1][1]);
+    TestTestingFixture fixture;
+    fixture.setTestFunction(fn);
+    fixture.runAllTests();
+    vh::emit("r %lu %lu", (unsigned long) fixture.getFailureCount(), (unsigned long) fixture.getCheckCount());
+    vh::emit("evals %ld %ld", g_ev[0][2], g_ev[1][2]);
+    std::string out = fixture.getOutput().asCharString();
+    int warn = 0;
+    for (size_t pos = 0; (pos = out.find("is evaluated multiple times", pos)) != std::string::npos; pos++) warn++;
+    vh::emit("warn %d", warn);
+    return true;
+}
+
 void run_case(const vh::Case& c) {
     for (size_t i = 0; i < c.ops.size(); i++) {
         const vh::Words& w = c.ops[i];
@@ -465,6 +653,11 @@ void run_case(const vh::Case& c) {
         else if (w[0] == "bits") done = op_bits(w);
         else if (w[0] == "ptr") done = op_ptr(w);
         else if (w[0] == "fail") done = op_fail(w);
+        else if (w[0] == "enumt") done = op_enum(w);
+        else if (w[0] == "zero") done = op_zero(w);
+        else if (w[0] == "throws") done = op_throws(w);
+        else if (w[0] == "seq") done = op_seq(w);
+        else if (w[0] == "evals") done = op_evals(w);
         if (!done) vh::emit("> skip");
     }
 }
